@@ -30,6 +30,17 @@ def run(ctx, res, cmd, pid, nontrivial, kind_of):
             for c in rp.get("cases", []):
                 f.write(c["input"] + "\n")
     rc, out = C.run_pure(cmd, cases, ctx["seed"], ctx["tier"], replay=replay_in)
+    prog = cases + ".progress"
+    if rc != 0 and os.path.exists(prog):
+        # the Go runtime killed the harness (an unrecoverable fatal error) inside a concurrent case
+        with open(prog) as f:
+            inp = f.read().strip()
+        res.violation(pid.lower() + ":fatal:" + C.sha(inp),
+                      "the harness process died with a Go runtime fatal error while goroutines were calling one "
+                      "wrapped handler concurrently with these params",
+                      dict(kind="failing-input", cases=[dict(input=inp)], log=out[:1500] + "\n...\n" + out[-1500:],
+                           replay_cmd="./check %s --replay <this file>" % pid), found_input=True)
+        return None
     if rc != 0:
         res.violation("corr:harness-run", "the harness failed or crashed (exit %d)" % rc,
                       dict(kind="harness-failure", log=out[-3000:]), found_input=False)
